@@ -135,14 +135,22 @@ package file
 //@   self o
 //@   protects jobsSnapshot
 
+// Every stream of a saved job gets its line, a zero offset included (after a
+// truncation the zero is what makes the restart begin at the start of the file):
+// ghost nstr counts the stream lines of the current job, one per iteration.
+
 //@ func (*offsetDB).save
 //@   ghost opened bool = false
 //@   ghost wrote bool = false
 //@   ghost synced bool = false
 //@   ghost nrename int = 0
 //@   ensures nrename <= 1 && (nrename == 1 ==> opened && wrote && synced)
+//@   ghost nstr int = 0
 //@   loop 1 invariant !wrote && !synced && nrename == 0 && opened
 //@   loop 2 invariant !wrote && !synced && nrename == 0 && opened
+//@   loop 2 invariant nstr == rangeindex#2 + 1
+//@   setat "streams:" nstr := 0
+//@   setat "string(strOff.Stream)" nstr := nstr + 1
 //@   callee OpenFile(name, flag, perm) (f, err)
 //@     pure
 //@     set opened := err == nil
